@@ -58,8 +58,8 @@ fn(R + "get_connection", cls="CRecord", props=["C26"], types=T, callees=NOOP, re
             # a connection that was invalidated (pool-wide or softly) is closed and not handed out
             f"implies({INVALIDATED}, {OC}.closed and result is not {OC} and fresh(result))",
             f"implies({OC} is None, fresh(result))",
-            # a replacement is a brand-new connection: no disconnect has been detected on it
-            "implies(fresh(result), not result._g_dead)",
+            # a replacement is a brand-new connection: no disconnect has been detected on it; there is no third possibility
+            "implies(fresh(result), not result._g_dead)", f"result is {OC} or fresh(result)",
             # a kept connection is the old one, untouched
             f"implies(result is {OC}, not {INVALIDATED})"],
    may_raise={"BaseException": "True"},
